@@ -18,6 +18,9 @@ MCKWritesT  == {{2, 3}}
 \* two queues: a copy of an unrelated range is processed while a kernel of the other queue runs
 MCRangesK   == {<<4, 2>>, <<2, 2>>, <<0, 1>>}
 MCKWritesK  == {{2, 3}}
+\* copies interleaved with Remap of a live page
+MCRangesR   == {<<2, 2>>, <<3, 1>>, <<0, 1>>, <<1, 3>>}
+MCKWritesR  == {{5}}
 MCRangesE   == {<<1, 0>>, <<1, 2>>, <<2, 2>>, <<4, 0>>}
 MCKWritesQ  == {{2, 3}, {1}}
 \* buffers smaller than their page: bytes 1, 3, 5 are mapped but belong to no buffer
